@@ -12,8 +12,9 @@ MANIFEST = dict(
          '_find_dependencies_recursive / parse_data_types_and_routes_from_doc_ref (same calls in the same order, the seen set, '
          '"*" expansion, name:version syntax, namespace docs and the datatype whitelist as starting points) retains exactly the '
          'data types of that closure under explicit, decidable side conditions that name the edge kinds the code does not '
-         'follow, never retains a data type outside it, keeps every whitelisted route and leaves no dangling non-alias reference; '
-         'decided witnesses show each side condition is needed (aliases whose target is removed, docs of routes kept because a '
+         'follow, never retains a data type outside it, keeps every whitelisted route and data type, keeps exactly the aliases whose '
+         'whole target is retained and leaves no dangling reference (data types, routes and aliases); '
+         'decided witnesses show each side condition is needed (docs of routes kept because a '
          'doc mentions them, routes mentioned in route / namespace docs, inherited member docs read in the child namespace). Tied '
          'to the code by differential runs of specs_to_ir(..., route_whitelist_filter=wl) against the compiled model on a dump of '
          'the unfiltered Api, an independent Python reference closure on the unfiltered Api as direct oracle (whitelisted kept, '
